@@ -480,6 +480,15 @@ def b_range(I, args, kw):
 def b_enumerate(I, args, kw):
     v = I.force(args[0])
     start = kw.get("start", args[1] if len(args) > 1 else 0)
+    if isinstance(v, TheoryObj) and v.theory == "symiter":
+        # (index, element) pairs of a list of unknown size: the index of an arbitrary element is some natural number
+        def mk(I2):
+            i = I2.ctx.fresh_int("enum_index")
+            I2.ctx.assume(i >= pyops.int_z(start))
+            return (SInt(i), v.fields["mk"](I2))
+        out = TheoryObj("symiter", fields={"mk": mk, "parent": v})
+        I.ctx.assume(I.symiter_nonempty(out) == I.symiter_nonempty(v))
+        return out
     if isinstance(v, SSeq):
         return ("__enumerate__", v, start)
     return tuple((start + i, x) for i, x in enumerate(I.iter_concrete(v)))
@@ -1144,7 +1153,16 @@ def _symiter_append(I, o, a, k):
     return None
 
 
+def _symiter_delitem(I, o, a, k):
+    """del lst[i] on a list of unknown size: afterwards it holds a subset of its former elements (emptiness unknown)"""
+    o.fields["nonempty"] = I.ctx.fresh_bool("nonempty_after_del")
+    o.fields.pop("len", None)
+    o.fields["removed_some"] = True
+    return None
+
+
 def install(reg):
+    reg.theory_methods[("symiter", "__delitem__")] = _symiter_delitem
     reg.theory_methods[("symiter", "append")] = _symiter_append
     reg.theory_methods[("pyobject", "__eq__")] = _opaque_eq
     reg.theory_methods[("pyobject", "__ne__")] = lambda I, o, a, k: SBool(z3.Not(_opaque_eq(I, o, a, k).z))
